@@ -27,7 +27,7 @@ import (
 	"verif/internal/model"
 )
 
-const rule = "(every 2-byte window of the fixed corpus of well-formed encodings set to 0xfffb..0xffff, 0x8000, 0x7fff, 0x0100, 0x00ff and every byte to 0x00 / 0x80 / 0xff, on every run) cases: (entry, type argument, bytes) over the 43 parser entry points plus 22 further byte-/string-consuming functions (key construction, decoders, constructors, mapping values); bytes are model encodings, encodings with every length/count field pushed to extremes, 1-2 structure-aware mutations, or arbitrary bytes up to 140 KiB; all 65,536 type codes plus -1, 65,536, MinInt, MaxInt swept through every type-taking function with four data shapes. On every accepted value all exported methods are called by reflection (argument-free always; with generated arguments where every parameter kind has a generator; returned library values are swept two levels deep). Oracle: every call returns (panics are caught per call and reported with the call path) within 20 s (re-run once with a 60 s limit before a hang is reported). Non-trivial: the parser accepted and >= 5 methods were invoked; distinct by (entry, type, input)."
+const rule = "(every 2-byte window of the fixed corpus of well-formed encodings set to 0xfffb..0xffff, 0x8000, 0x7fff, 0x0100, 0x00ff every byte to 0x00 / 0x80 / 0xff, and every truncation point, on every run) cases: (entry, type argument, bytes) over the 43 parser entry points plus 22 further byte-/string-consuming functions (key construction, decoders, constructors, mapping values); bytes are model encodings, encodings with every length/count field pushed to extremes, 1-2 structure-aware mutations, or arbitrary bytes up to 140 KiB; all 65,536 type codes plus -1, 65,536, MinInt, MaxInt swept through every type-taking function with four data shapes. On every accepted value all exported methods are called by reflection (argument-free always; with generated arguments where every parameter kind has a generator; returned library values are swept two levels deep). Oracle: every call returns (panics are caught per call and reported with the call path) within 20 s (re-run once with a 60 s limit before a hang is reported). Non-trivial: the parser accepted and >= 5 methods were invoked; distinct by (entry, type, input)."
 
 func TestMain(m *testing.M) { ev.Main(m, "C04", rule) }
 
@@ -367,6 +367,10 @@ func TestEnumBoundaryFields(t *testing.T) {
 					n++
 					if n%shards != shard {
 						continue
+					}
+					// the encoding cut at this position
+					if err := prop.One(Case{Entry: name, Typ: fi.Typ, Hex: ev.H(base[:p]), Source: "enum-boundary", Mut: fmt.Sprintf("cut@%d", p)}); err != nil {
+						return err
 					}
 					for _, w := range words {
 						if p+1 >= len(base) {
